@@ -3,7 +3,7 @@ from common import COMMON_TB
 PROP = {
     "bin": "c09",
     "prop_file": "Properties/C09.v",
-    "model_files": ["Store/VInt.v", "Store/SkipIndex.v", "Store/SkipIndexProofs.v", "Store/BlockStore.v", "Store/BlockStoreProofs.v", "Store/DocCodec.v", "Store/DocCodecProofs.v"],
+    "model_files": ["Store/VInt.v", "Store/SkipIndex.v", "Store/SkipIndexProofs.v", "Store/BlockStore.v", "Store/BlockStoreProofs.v", "Store/DocCodec.v", "Store/DocCodecProofs.v", "Store/WriterFaults.v"],
     "level": "proof",
     "engine": "E5-codecs",
     "level_text": "Proof: (skip index) for every contiguous checkpoint sequence of any length -- any number of CHECKPOINT_PERIOD blocks and layers -- the builder never "
@@ -13,6 +13,7 @@ PROP = {
                   "(block store) for every codec with decompress(compress x)=x, every block size and every list of non-empty documents (incl. larger than a block): the "
                   "writer never panics, blocks partition the documents, checkpoints are contiguous, the offset table reads back every document and "
                   "get(write docs) i = nth i docs through the skip index; the block cache is transparent under any replacement policy. "
+                  "(I/O errors) the same-thread and dedicated-thread block compressors report Err for every fault pattern of the underlying writer, whichever way the thread/sender race goes, and Ok implies the whole stream was written. "
                   "(vint) serialize_vint_u32 with its four regenerated branch thresholds is read back by read_u32_vint for every u32 (CompactDoc length prefixes). "
                   "Partial (_partial, tied by the correspondence only, no theorem): iter_raw/alive bitsets (C09_iter), stack/re-append merges (C09_merge_store), and the "
                   "byte-level framing of the store file (footer, layer-offset header: store_open/si_open) -- these models are run on the implementation's files every run. "
@@ -24,7 +25,7 @@ PROP = {
                   "decompress (compress x) = Some x. serde_json (PreTokenizedString payload) and UTF-8 validation are outside the model. "
                   "No axioms (Print Assumptions: closed under the global context).",
     "technique": "Coq proof (builder invariant by induction over insertions, tree descent, codec round trips) + correspondence cases evaluated by vm_compute",
-    "rule": "cases: vint boundary values (non-trivial: >= 128), large stored values (Rust side), codec-switch merges (9 codec pairs x block count x deletes); store files (non-trivial: >= 2 documents), documents (non-trivial: >= 1 stored value), merges (always non-trivial), index documents (>= 2 stored values); "
+    "rule": "cases: StoreWriter over a failing Write (a fault at every operation index of the stream, thread on/off, sticky/one-shot; non-trivial: the fault lies inside the stream); vint boundary values (non-trivial: >= 128), large stored values (Rust side), codec-switch merges (9 codec pairs x block count x deletes); store files (non-trivial: >= 2 documents), documents (non-trivial: >= 1 stored value), merges (always non-trivial), index documents (>= 2 stored values); "
             "distinct by hash of the Gallina case term",
     "trusted_base": COMMON_TB + ["lz4_flex / zstd: contract decompress (compress x) = Some x (Section hypothesis), exercised by the harness under every configuration",
                                  "serde_json text of PreTokenizedString is an opaque byte string in the model; UTF-8 validation of strings is not modelled"],
